@@ -63,6 +63,10 @@ def canonical(sg, conforms, rg):
     for s, p, o in rg:
         if p == SH.resultMessage and o not in declared:
             continue
+        # RDF 1.1: language tags compare case-insensitively, "x"@en and "x"@EN are one term (rdflib keeps one of the two
+        # spellings in a set, whichever was inserted first) — which spelling is reported is not an observable of the property
+        if isinstance(o, Literal) and o.language:
+            o = Literal(str(o), lang=o.language.lower())
         h.add((s, p, o))
     return {"conforms": conforms, "graph": sorted(to_canonical_graph(h).serialize(format="nt").splitlines())}
 
